@@ -250,6 +250,19 @@ def builtin_call(name, args, checked):
             return ("tuple", (wrap(args[0] - args[1], ty), 0 if in_range(args[0] - args[1], ty) else 1))
         if meth == "overflowing_add":
             return ("tuple", (wrap(args[0] + args[1], ty), 0 if in_range(args[0] + args[1], ty) else 1))
+        if meth in ("leading_ones", "leading_zeros", "trailing_ones", "trailing_zeros", "count_ones", "count_zeros") and ty[1:].isdigit() and isinstance(args[0], int):
+            bits_ = int(ty[1:])
+            v_ = args[0] & ((1 << bits_) - 1)
+            bs_ = format(v_, "0%db" % bits_)
+            if meth == "leading_ones":
+                return len(bs_) - len(bs_.lstrip("1"))
+            if meth == "leading_zeros":
+                return len(bs_) - len(bs_.lstrip("0"))
+            if meth == "trailing_ones":
+                return len(bs_) - len(bs_.rstrip("1"))
+            if meth == "trailing_zeros":
+                return len(bs_) - len(bs_.rstrip("0"))
+            return bs_.count("1") if meth == "count_ones" else bs_.count("0")
         if meth in ("min",):
             return min(args)
         if meth in ("max",):
